@@ -1,0 +1,90 @@
+//! Verification hooks.  Compiled only with `--cfg rescrv_blue_verif`; with the guard off this
+//! module does not exist and no code path changes.
+//!
+//! * single-step control: a thread that calls `set_single_step(Some(n))` and then runs
+//!   `KeyValueStore::memtable_thread` / `LsmTree::compaction_thread` gets the call *back* when the
+//!   loop would otherwise sleep on its condition variable (memtable thread), resp. after `n`
+//!   compactions or when nothing is selectable (compaction thread).  The loop bodies are the real
+//!   ones; only "wait" is replaced by "return to caller".
+//! * observers: the compactions selected on this thread, an event log with a global order.
+
+use std::cell::{Cell, RefCell};
+use std::sync::Mutex;
+use std::sync::atomic::{AtomicU64, Ordering};
+
+thread_local! {
+    static BUDGET: Cell<Option<u64>> = const { Cell::new(None) };
+    static CHOSEN: RefCell<Vec<ChosenCompaction>> = const { RefCell::new(Vec::new()) };
+}
+
+/// What `next_compaction` handed to the compaction loop on this thread.
+#[derive(Clone, Debug)]
+pub struct ChosenCompaction {
+    pub lower_level: usize,
+    pub upper_level: usize,
+    pub first_key: Vec<u8>,
+    pub last_key: Vec<u8>,
+    pub inputs: Vec<[u8; 32]>,
+}
+
+pub fn set_single_step(budget: Option<u64>) {
+    BUDGET.with(|b| b.set(budget));
+}
+
+pub fn single_step() -> bool {
+    BUDGET.with(|b| b.get().is_some())
+}
+
+/// true when the single-stepped compaction loop must hand control back before selecting.
+pub fn budget_exhausted() -> bool {
+    BUDGET.with(|b| b.get() == Some(0))
+}
+
+pub fn spend() {
+    BUDGET.with(|b| {
+        if let Some(n) = b.get() {
+            b.set(Some(n.saturating_sub(1)));
+        }
+    });
+}
+
+pub fn record_chosen(c: ChosenCompaction) {
+    CHOSEN.with(|v| v.borrow_mut().push(c));
+}
+
+pub fn take_chosen() -> Vec<ChosenCompaction> {
+    CHOSEN.with(|v| std::mem::take(&mut *v.borrow_mut()))
+}
+
+static EVENT_SEQ: AtomicU64 = AtomicU64::new(0);
+static EVENTS: Mutex<Vec<(u64, u64, &'static str, [u64; 3])>> = Mutex::new(Vec::new());
+static EVENTS_ON: AtomicU64 = AtomicU64::new(0);
+
+fn thread_num() -> u64 {
+    thread_local! { static ID: Cell<u64> = const { Cell::new(0) }; }
+    static NEXT: AtomicU64 = AtomicU64::new(1);
+    ID.with(|c| {
+        if c.get() == 0 {
+            c.set(NEXT.fetch_add(1, Ordering::SeqCst));
+        }
+        c.get()
+    })
+}
+
+pub fn events_enable(on: bool) {
+    EVENTS_ON.store(on as u64, Ordering::SeqCst);
+}
+
+/// Record one event (observer only: never changes a code path).
+pub fn emit(tag: &'static str, args: [u64; 3]) {
+    if EVENTS_ON.load(Ordering::SeqCst) == 0 {
+        return;
+    }
+    let mut ev = EVENTS.lock().unwrap();
+    let seq = EVENT_SEQ.fetch_add(1, Ordering::SeqCst);
+    ev.push((seq, thread_num(), tag, args));
+}
+
+pub fn take_events() -> Vec<(u64, u64, &'static str, [u64; 3])> {
+    std::mem::take(&mut *EVENTS.lock().unwrap())
+}
